@@ -190,6 +190,10 @@ def run_job(prop, job, tier, verbose=False, loopless=False):
                 lcf, err = loop_contracts_file(wd, cur, job)
                 if lcf is None:
                     res["detail"] = "loop contract file: " + err
+                    if job.fallback:
+                        res["status"] = "infra"
+                        res["infra_failed"] = [dict(obligation="loop-contracts-not-applicable", description=err[-400:], status="ERROR",
+                                                    location="?", function=job.enforce or "?", inputs={}, trace_tail=[])]
                     return res
                 cmd += ["--loop-contracts-file", lcf]
         cmd += [cur, b]
@@ -198,6 +202,12 @@ def run_job(prop, job, tier, verbose=False, loopless=False):
         if rc != 0:
             res["detail"] = "goto-instrument --dfcc failed: " + out.decode(errors="replace")[-3000:]
             res["wall_s"] = time.time() - t0
+            if job.loop_contracts and not loopless and job.fallback:
+                # the loop contracts no longer fit the code (renamed local, restructured loop): the proof is broken, the
+                # property is not; let the bounded stand-in look for a concrete failure
+                res["status"] = "infra"
+                res["infra_failed"] = [dict(obligation="loop-contracts-not-applicable", description=res["detail"][-400:], status="ERROR",
+                                            location="?", function=job.enforce or "?", inputs={}, trace_tail=[])]
             return res
         cur = b
     cmd = ["cbmc", cur, "--json-ui", "--trace"] + CBMC_FLAGS + CBMC_NO_DEFAULT
@@ -551,7 +561,7 @@ def check_property(prop, tier, only=None, verbose=False):
             if verbose or r["status"] != "ok":
                 log("  [%s] %-40s %-8s obl=%d ok=%d t=%.1fs %s" % (prop, j.name, r["status"], r["obligations"],
                     r["discharged"], r["wall_s"], r["detail"][:300]))
-    violations = []; known_hits = []; undecided = []; attempted = []
+    violations = []; known_hits = []; undecided = []; attempted = []; degraded = []
     replay_budget = [MAX_REPLAYS_PER_PROPERTY]
     for j in jobs:
         r = results[j.name]
@@ -567,6 +577,14 @@ def check_property(prop, tier, only=None, verbose=False):
             if rf["status"] == "failed":
                 r["failed"] = rf["failed"]; r["status"] = "failed"; r["cmds"] += rf["cmds"]
                 r["detail"] = "loop-contract obligations failed; bounded stand-in (%s) found a concrete failure" % j.fallback.get("bound", "")
+            elif rf["status"] == "ok":
+                # the loop contracts no longer fit the code but the bounded stand-in holds: the property held on everything explored;
+                # the job is reported and counted as bounded, never as proved
+                r["status"] = "ok"; r["degraded"] = True; r["cmds"] += rf["cmds"]
+                r["obligations"] = rf["obligations"]; r["discharged"] = rf["discharged"]; r["loop_obligations"] = 0
+                r["detail"] = "loop-contract obligations not discharged (%s); decided by the bounded stand-in only (%s)" % (
+                    ", ".join(i["obligation"] for i in r["infra_failed"][:4]), j.fallback.get("bound", ""))
+                degraded.append((j, r))
             else:
                 r["detail"] = "loop-contract obligations failed (%s); bounded stand-in status=%s: proof broken, property undecided" % (
                     ", ".join(i["obligation"] for i in r["infra_failed"][:4]), rf["status"])
@@ -613,6 +631,8 @@ def check_property(prop, tier, only=None, verbose=False):
         log("VIOLATION property=%s replay=%s%s" % (prop, path, tail))
     for j, r in undecided:
         log("UNDECIDED property=%s job=%s status=%s %s" % (prop, j.name, r["status"], r["detail"][:400]))
+    for j, r in degraded:
+        log("PROOF-DEGRADED property=%s job=%s %s" % (prop, j.name, r["detail"][:300]))
     for j, r in attempted:
         log("ATTEMPTED-NOT-DECIDED property=%s job=%s status=%s (advisory obligation: listed in the evidence as not decided, does not count as discharged)" % (prop, j.name, r["status"]))
     write_evidence(prop, tier, mod, jobs, results, violations, known_hits, undecided, time.time() - t0, attempted)
@@ -630,7 +650,7 @@ def write_evidence(prop, tier, mod, jobs, results, violations, known_hits, undec
     obl = sum(r["obligations"] for r in results.values())
     dis = sum(r["discharged"] for r in results.values())
     kinds = sorted(set(j.kind for j in jobs))
-    all_proof = bool(jobs) and all(j.kind in ("proof", "static") for j in jobs)
+    all_proof = bool(jobs) and all(j.kind in ("proof", "static") and not results[j.name].get("degraded") for j in jobs)
     # the evidence level is the level claimed in MANIFEST.json; a proof-level claim is downgraded when any job is bounded
     level = (getattr(mod, "MANIFEST", None) or {}).get("category") or meta.get("level") or ("proof" if all_proof else "other")
     if level == "proof" and not all_proof:
@@ -641,7 +661,8 @@ def write_evidence(prop, tier, mod, jobs, results, violations, known_hits, undec
     for j in jobs:
         r = results[j.name]
         functions.update(j.functions)
-        per_job.append(dict(job=j.name, kind=j.kind, bound=j.bound, arithmetic=j.mode, backend=j.backend, clause=j.clause,
+        per_job.append(dict(job=j.name, kind=("bounded (proof degraded: loop contracts did not apply)" if r.get("degraded") else j.kind),
+                            bound=(j.fallback or {}).get("bound", j.bound) if r.get("degraded") else j.bound, arithmetic=j.mode, backend=j.backend, clause=j.clause,
                             functions_under_contract=j.functions, enforce=j.enforce, replaced_by_contract=j.replace,
                             bodies_removed=j.remove_bodies, stubs=j.stubs, loop_contracts=j.loop_contracts,
                             unwind=j.unwind, status=r["status"], obligations=r["obligations"], discharged=r["discharged"],
@@ -654,8 +675,8 @@ def write_evidence(prop, tier, mod, jobs, results, violations, known_hits, undec
                 samples.append(dict(job=j.name, obligation=s))
         if r.get("reach_inputs") and len(samples) < 16:
             samples.append(dict(job=j.name, witness_input_vector=[(k, d) for k, _, d in r["reach_inputs"]][:12]))
-    proof_jobs = [j for j in jobs if j.kind == "proof"]
-    bounded_jobs = [j for j in jobs if j.kind == "bounded"]
+    proof_jobs = [j for j in jobs if j.kind == "proof" and not results[j.name].get("degraded")]
+    bounded_jobs = [j for j in jobs if j.kind == "bounded" or results[j.name].get("degraded")]
     expl = ("Contract-based deductive verification with CBMC %s (goto-instrument --dfcc). %d solver calls: %d unbounded "
             "(function contracts + loop contracts, kind=proof), %d bounded stand-ins (contracts enforced, loops closed by unwinding over "
             "an enumerated shape set; never counted as proved), %d static. Decided clauses: %s. Not decided by this family: %s") % (
